@@ -129,6 +129,11 @@ def project(v, depth: int = 0):
     if ann and not isinstance(v, type):
         return {"k": "obj", "cls": c, "flavour": "plain",
                 "fv": [[f, _getattr(v, f, depth)] for f in ann if not f.startswith("_")]}
+    if not isinstance(v, type) and getattr(cls, "__module__", "").startswith("verif_") and hasattr(v, "__dict__") \
+            and "__init__" in vars(cls) and getattr(cls.__init__, "__annotations__", None):
+        # a generated class whose members are declared by its constructor only: the instance dict is the state
+        return {"k": "obj", "cls": c, "flavour": "plain",
+                "fv": [[f, project(x, depth + 1)] for f, x in vars(v).items() if not f.startswith("_")]}
     return {"k": "opaque", "cls": c}
 
 
